@@ -1,15 +1,20 @@
 #!/bin/bash
 # re-run every kept seeded change against the check of its property; writes /verif/seeded/RESULTS.txt
+# usage: all_seeds.sh            (everything, one lane)
+#        all_seeds.sh <lane> <regex>   e.g. all_seeds.sh a 'C(0[1-9]|10)-'  : only matching seeds, results in seeded/RESULTS.<lane>.txt,
+#                                    own scratch directories per lane (lanes may run side by side; concatenate afterwards)
 cd /verif || exit 2
-# own scratch worktree / target / output directories: may run next to tools/process_seeds.sh
-export VERIF_SEED_WT=/tmp/seedrepo-all VERIF_ALT_TARGET=/tmp/verif-alt-target-all VERIF_SEED_OUT=/tmp/seedrun-all
-rsync -a --delete --exclude target /verif/harness/ /tmp/harness-snap-all/
-export VERIF_HARNESS_DIR=/tmp/harness-snap-all
-: > seeded/RESULTS.txt
+lane="${1:-all}"; re="${2:-.}"
+export VERIF_SEED_WT=/tmp/seedrepo-$lane VERIF_ALT_TARGET=/tmp/verif-alt-target-$lane VERIF_SEED_OUT=/tmp/seedrun-$lane
+rsync -a --delete --exclude target /verif/harness/ /tmp/harness-snap-$lane/
+export VERIF_HARNESS_DIR=/tmp/harness-snap-$lane
+res=seeded/RESULTS.txt; [ "$lane" != all ] && res=seeded/RESULTS.$lane.txt
+: > $res
 for d in seeded/*/; do
   n=$(basename "$d"); p="${n%%-*}"
-  if grep -q '"superseded"' "$d/meta.json" 2>/dev/null; then echo "$n vs $p: superseded (unreachable on the fixed tree, see meta.json)" | tee -a seeded/RESULTS.txt; continue; fi
+  echo "$n" | grep -Eq "$re" || continue
+  if grep -q '"superseded"' "$d/meta.json" 2>/dev/null; then echo "$n vs $p: superseded (unreachable on the fixed tree, see meta.json)" | tee -a $res; continue; fi
   r=$(tools/run_seed.sh "/verif/seeded/$n" "$p" 2>&1 | tail -1)
-  echo "$r" | tee -a seeded/RESULTS.txt
+  echo "$r" | tee -a $res
 done
-grep -c "exit=1" seeded/RESULTS.txt
+grep -c "exit=1" $res
